@@ -21,6 +21,10 @@ FORBIDDEN = re.compile(
 if REPO not in sys.path:
     sys.path.insert(0, REPO)
 
+# the server logs every refused connection at ERROR level; without a handler Python prints those lines to stderr
+import logging as _logging  # noqa: E402
+_logging.getLogger().addHandler(_logging.NullHandler())
+
 
 class Infra(Exception):
     """infrastructure failure: exit 2, never a VIOLATION"""
